@@ -72,13 +72,13 @@ func ckksBinKinds() []Kind {
 		mk("ct1-bigint", "bigint", 1, 0, 3, func(*Env, *Gen) interface{} { return new(big.Int).Lsh(big.NewInt(-12345), 70) }),
 		mk("ct1-bigfloat", "bigfloat", 1, 0, 3, func(*Env, *Gen) interface{} { return bigF(-0.7) }),
 		mk("ct2-bigcomplex", "bigcomplex", 2, -1, 3, func(*Env, *Gen) interface{} { return &bignum.Complex{bigF(0.25), bigF(-3)} }),
-		mk("ct1-[]complex128", "[]complex128", 1, 0, 3, func(e *Env, g *Gen) interface{} {
+		withHistory(mk("ct1-[]complex128", "[]complex128", 1, 0, 3, func(e *Env, g *Gen) interface{} {
 			v := make([]complex128, slots(e))
 			for i := range v {
 				v[i] = complex(float64(g.U64()%1000)/500-1, float64(g.U64()%1000)/500-1)
 			}
 			return v
-		}),
+		})),
 		mk("ct2-[]float64", "[]float64", 2, -1, 3, func(e *Env, g *Gen) interface{} {
 			v := make([]float64, slots(e)-3)
 			for i := range v {
@@ -102,6 +102,8 @@ func ckksBinKinds() []Kind {
 		}),
 	}
 }
+
+func withHistory(k Kind) Kind { k.History = true; return k }
 
 func ckksEvaluatorTarget() *Target {
 	bk := ckksBinKinds()
